@@ -7,6 +7,7 @@ import (
 
 	z "github.com/Oudwins/zog"
 	"github.com/Oudwins/zog/conf"
+	p "github.com/Oudwins/zog/internals"
 	"github.com/Oudwins/zog/parsers/zjson"
 	"github.com/Oudwins/zog/zhttp"
 	v "github.com/Oudwins/zog/zzverif"
@@ -91,7 +92,7 @@ func c10Leaves(front string) []c10leaf {
 }
 
 func C10_Jobs() []string {
-	return []string{"paths/map", "paths/validate", "paths/json", "missing/map", "missing/json", "flat/json", "flat/zhttp-json", "cross-front-end", "issuepath-stale", "long-slice-paths", "sanitize-root-first", "empty-record/map", "empty-record/nested", "empty-record/json", "issuepath", "sanitize", "first-and-unique/map", "first-and-unique/validate", "root-key"}
+	return []string{"paths/map", "paths/validate", "paths/json", "missing/map", "missing/json", "flat/json", "flat/zhttp-json", "cross-front-end", "issuepath-stale", "long-slice-paths", "sanitize-root-first", "empty-record/map", "empty-record/nested", "empty-record/json", "issuepath", "sanitize", "first-and-unique/map", "first-and-unique/validate", "root-key", "deep-slices/parse", "deep-slices/validate", "issuepath-on-copy"}
 }
 func C10_Covers() []string { return []string{"some-issues"} }
 
@@ -388,6 +389,84 @@ func C10_Run(job string) {
 		v.Assert(len(errs) == 2 && len(errs[want]) == 1, "C10:issue-not-at-documented-path")
 		errs = z.Slice(z.Int().GT(100)).Validate(&top)
 		v.Assert(len(errs) == 2 && len(errs[want]) == 1, "C10:issue-not-at-documented-path")
+		v.Cover("some-issues")
+	case "deep-slices":
+		mode := b
+		// slices nested in structs nested in slices: every failing leaf is filed under its own
+		// a[i].b[j].c.d[k].e, starting from fresh pools (a path builder that still has to grow)
+		type E struct{ E int }
+		type C struct{ D []E }
+		type B struct{ C C }
+		type A struct{ B []B }
+		type T struct{ A []A }
+		sc := z.Struct(z.Schema{"a": z.Slice(z.Struct(z.Schema{"b": z.Slice(z.Struct(z.Schema{"c": z.Struct(z.Schema{"d": z.Slice(z.Struct(z.Schema{"e": z.Int().GT(100)}))})}))}))})
+		var vals [2][2][2]int
+		for i := 0; i < 2; i++ {
+			for j := 0; j < 2; j++ {
+				for k := 0; k < 2; k++ {
+					vals[i][j][k] = 500
+					if v.Bool(fmt.Sprintf("bad%d%d%d", i, j, k)) {
+						vals[i][j][k] = 5
+					}
+				}
+			}
+		}
+		p.ClearPools()
+		var d T
+		var errs z.ZogIssueMap
+		if mode == "validate" {
+			for i := 0; i < 2; i++ {
+				var a A
+				for j := 0; j < 2; j++ {
+					a.B = append(a.B, B{C: C{D: []E{{vals[i][j][0]}, {vals[i][j][1]}}}})
+				}
+				d.A = append(d.A, a)
+			}
+			errs = sc.Validate(&d)
+		} else {
+			var la []any
+			for i := 0; i < 2; i++ {
+				var lb []any
+				for j := 0; j < 2; j++ {
+					lb = append(lb, map[string]any{"c": map[string]any{"d": []any{map[string]any{"e": vals[i][j][0]}, map[string]any{"e": vals[i][j][1]}}}})
+				}
+				la = append(la, map[string]any{"b": lb})
+			}
+			errs = sc.Parse(map[string]any{"a": la}, &d)
+		}
+		c10WellFormed(errs)
+		nbad := 0
+		for i := 0; i < 2; i++ {
+			for j := 0; j < 2; j++ {
+				for k := 0; k < 2; k++ {
+					key := fmt.Sprintf("a[%d].b[%d].c.d[%d].e", i, j, k)
+					if vals[i][j][k] == 5 {
+						nbad++
+						v.Assert(len(errs[key]) == 1 && errs[key][0].Path == key, "C10:issue-not-at-documented-path")
+					} else {
+						v.Assert(len(errs[key]) == 0, "C10:issue-not-at-documented-path")
+					}
+				}
+			}
+		}
+		v.Assert((nbad == 0 && errs == nil) || len(errs) == nbad+1, "C10:issue-not-at-documented-path")
+		v.Cover("some-issues")
+	case "issuepath-on-copy":
+		// a reusable test specialised on a copy: the options of the copy that runs decide the path
+		base := z.TestFunc("mismatch", func(val any, c z.Ctx) bool { return false })
+		t1 := base
+		z.IssuePath("confirm")(&t1)
+		t2 := base
+		t2.IssuePath = "other.place"
+		var d struct{ Password, Again, Plain string }
+		errs := z.Struct(z.Schema{"password": z.String().Test(t1), "again": z.String().Test(t2), "plain": z.String().Test(base)}).
+			Parse(map[string]any{"password": "a", "again": "b", "plain": "c"}, &d)
+		c10WellFormed(errs)
+		v.Assert(len(errs) == 4 && len(errs["confirm"]) == 1 && len(errs["other.place"]) == 1 && len(errs["plain"]) == 1, "C10:issuepath-override")
+		d.Password, d.Again, d.Plain = "a", "b", "c"
+		errs = z.Struct(z.Schema{"password": z.String().Test(t1), "again": z.String().Test(t2), "plain": z.String().Test(base)}).Validate(&d)
+		c10WellFormed(errs)
+		v.Assert(len(errs["confirm"]) == 1 && len(errs["plain"]) == 1 && len(errs["password"]) == 0, "C10:issuepath-override")
 		v.Cover("some-issues")
 	case "sanitize-root-first":
 		// SanitizeMap keeps every key, also when the first issue is recorded at the root
